@@ -85,6 +85,16 @@ fn roots(tier: Tier, w: &World, s0: &Store) -> Vec<(String, HState)> {
                     }
                     v.push((format!("RU+wound_down{lim}"), HState { s: t, clock_devs: 0, price_devs: 0, closes: vec![0; nb], forged: false }));
                 }
+                // ... or the group admin switches the banks to reduce-only (lenders may leave, but not with what is lent out)
+                let mut t = s.clone();
+                let mut ok = true;
+                for b in 0..nb {
+                    let opt = marginfi_type_crate::types::BankConfigOpt { operational_state: Some(marginfi_type_crate::types::BankOperationalState::ReduceOnly), ..Default::default() };
+                    ok &= process_tx(&mut t, &Tx::one(ix::configure_bank(w.group, w.roles.admin, w.banks[b].key, opt), &[w.roles.admin])).ok();
+                }
+                if ok {
+                    v.push(("RU+reduce_only".to_string(), HState { s: t, clock_devs: 0, price_devs: 0, closes: vec![0; nb], forged: false }));
+                }
             }
         }
     }
